@@ -63,7 +63,10 @@ def content(ar):
 def check_add(cname, state, x):
     """One transition from `state` (ordered member tuple) by add(x). Returns (violations, new_state)."""
     out = []
-    ar = rebuild(cname, state)
+    try:
+        ar = rebuild(cname, state)
+    except Exception as e:
+        return [("C04:add:exception:%s" % type(e).__name__, "%s archive: re-adding %r raised %r" % (cname, state, e))], None
     if content(ar) != tuple(state):
         out.append(("C04:rebuild:%s" % cname, "re-adding the members %r of an archive gives %r" % (state, content(ar))))
         return out, None
@@ -98,8 +101,11 @@ def check_history(cname, seq):
     out = []
     ar = make_archive(cname)
     flags = []
-    for x in seq:
-        flags.append(ar.add(ind(x)))
+    try:
+        for x in seq:
+            flags.append(ar.add(ind(x)))
+    except Exception as e:
+        return [("C04:add:exception:%s" % type(e).__name__, "%s archive: history %r raised %r" % (cname, seq, e))]
     got = set(content(ar))
     exp = nondominated(seq)
     if got != exp or len(content(ar)) != len(got):
@@ -109,7 +115,10 @@ def check_history(cname, seq):
 
 def check_truncate(cname, state, feats, size, larger=True):
     out = []
-    ar = rebuild(cname, state)
+    try:
+        ar = rebuild(cname, state)
+    except Exception as e:
+        return [("C04:add:exception:%s" % type(e).__name__, "%s archive: re-adding %r raised %r" % (cname, state, e))]
     members = list(ar)
     for m, f in zip(members, feats):
         m.features['crowding_distance'] = f
